@@ -70,7 +70,9 @@ func (p *Pruner) feasible(x *Exec, hyps []string) bool {
 		// quantified facts are left out: an unsatisfiable subset still proves the
 		// path infeasible, and quantifier-free checks answer at once (with them
 		// every check ran into the time limit on functions with deep invariants)
-		if strings.Contains(h, "(forall ") || strings.Contains(h, "(exists ") {
+		if (strings.Contains(h, "(forall ") || strings.Contains(h, "(exists ")) && !x.boundedRun && x.bounded == 0 {
+			// (bounded runs keep them: their bounding assumptions are quantified and
+			// are what keeps the unrolled loops finite)
 			continue
 		}
 		sb.WriteString("(assert " + h + ")\n")
